@@ -112,11 +112,15 @@ def run(rep, tier):
         raise AnalysisBroken("unexpected return set of condition_variable::wait_until: %s" % sorted(names))
     fn = cs["wait_until"]
     sites = []
+    from engine.kinds import expand_locals
+    xcond = {}
     for b, blk in fn.blocks.items():
         if blk.cond is None:
             continue
         calls = []
-        walk(blk.cond, lambda x: calls.append(x) if x.get("k") == "call" and callee_of(x) == "pika::detail::condition_variable::wait_until" else None)
+        # the result may be kept in (const) locals before it is tested: read the condition through them
+        xcond[b] = expand_locals(fn, blk.cond)
+        walk(xcond[b], lambda x: calls.append(x) if x.get("k") == "call" and callee_of(x) == "pika::detail::condition_variable::wait_until" else None)
         if calls:
             sites.append((b, blk, calls[0]))
     if len(sites) != 1:
@@ -124,9 +128,9 @@ def run(rep, tier):
     b, blk, call = sites[0]
     for name, val in sorted(rset):
         try:
-            truth = bool(eval_tree(blk.cond, {T(call): val}))
+            truth = bool(eval_tree(xcond[b], {T(call): val}))
         except Unknown as e:
-            raise AnalysisBroken("cannot evaluate %s for %s: %s" % (T(blk.cond), name, e))
+            raise AnalysisBroken("cannot evaluate %s for %s: %s" % (T(xcond[b]), name, e))
         tgt = [t for l, t, _ in blk.succ if l == ("true" if truth else "false")][0]
         kind, val_tree, rev = first_outcome(fn, tgt)
         gives_up = kind == "return" and T(strip(val_tree)) == "false"
@@ -210,12 +214,24 @@ def run(rep, tier):
             rep.bad("C08.R5", fn, loc_of(nev), "no-wake-loop", "notify_one is not in a loop: releasing several permits wakes one waiter only")
         else:
             bad_exit = []
+            # identifiers that count permits / waiters, whatever they are called: integer parameters, locals
+            # initialised from cond_.size(..), and locals stepped (++ / --) inside the loop
+            countlike = set(p_["name"] for p_ in fn.params if re.search(r"int|size_t|long|ptrdiff|short|unsigned", str(p_.get("type", ""))))
+            for _, _, e_ in fn.all_events():
+                if e_.get("k") == "decl" and e_.get("init") is not None and re.search(r"cond_\.size\(", T(e_["init"])):
+                    countlike.add(e_.get("var"))
+            for b_ in loop:
+                for e_ in fn.blocks[b_].events:
+                    if e_.get("k") == "write" and e_.get("op") in ("++", "--") and re.match(r"^\w+$", P(e_["lhs"])):
+                        countlike.add(P(e_["lhs"]))
             for b in loop:
                 blk = fn.blocks[b]
                 for lab, t, _ in blk.succ:
                     if t not in loop:
                         atom = cond_atoms(blk.cond)[0] if blk.cond is not None else ""
-                        if not any(a in atom for a in allowed):
+                        ids = set(re.findall(r"[A-Za-z_]\w*", atom))
+                        counting = bool(ids) and ids <= countlike
+                        if not any(a in atom for a in allowed if a != "count") and not counting:
                             bad_exit.append((b, atom))
             # no return may bypass the wake loop: every path from the permit update to the exit enters the loop (its own exits are
             # the only way not to notify: no waiters / no permits / count reached)
